@@ -71,6 +71,8 @@ pub struct StreamCfg {
     pub wild: bool,
     pub focus: bool,
     pub dfs_depth: u32,
+    /// also present every legal three-men position (exhaustive sub-space)
+    pub three_men: bool,
 }
 
 /// Drive `f` over the shard's share of the stream. `f` returns false to stop a playout
@@ -122,6 +124,13 @@ where
                 g.undo_move();
             }
         }
+    }
+
+    // (1b) the complete three-men sub-space
+    if cfg.three_men {
+        three_men(shard, shards, &mut |p: &Pos| {
+            present(p, "three-men", l, &mut f);
+        });
     }
 
     // (2) biased random playouts from corpus roots
